@@ -46,7 +46,7 @@ class BaseGridSearch(BaseForecaster):
         super(BaseGridSearch, self).__init__()
 
     @if_delegate_has_method(delegate=("best_forecaster_", "forecaster"))
-    def update(self, y, X=None, update_params=False):
+    def update(self, y, X=None, update_params=True):
         """Call predict on the forecaster with the best found parameters."""
         self.check_is_fitted("update")
         self.best_forecaster_.update(y, X, update_params=update_params)
@@ -58,7 +58,7 @@ class BaseGridSearch(BaseForecaster):
         y,
         cv=None,
         X=None,
-        update_params=False,
+        update_params=True,
         return_pred_int=False,
         alpha=DEFAULT_ALPHA,
     ):
@@ -81,7 +81,7 @@ class BaseGridSearch(BaseForecaster):
         y,
         fh=None,
         X=None,
-        update_params=False,
+        update_params=True,
         return_pred_int=False,
         alpha=DEFAULT_ALPHA,
     ):
